@@ -124,8 +124,16 @@ def gen_cases(tier, seed):
         (8 * MB, "zerorich", {"comp": "st", "mode": "-BD", "legacy": False, "bs": "-B6"}),
         (16 * MB + 1, "text", {"comp": "st", "legacy": True}),                        # 3 legacy blocks
         (8 * MB, "text", {"comp": "mt", "mode": "-BD", "legacy": False, "bs": "-B5", "bx": True}),
+        # single-pass inputs that need every byte of the shared destination buffer: incompressible, block
+        # checksums on, 1..3 bytes below the 4 MB job size (the bound of the one-shot path is exact there)
+        (4 * MB - 1, "random", {"comp": "mt", "legacy": False, "bs": "-B4", "bx": True, "dict": None}),
+        (4 * MB - 2, "random", {"comp": "st", "legacy": False, "bs": "-B7", "bx": True, "dict": None}),
+        (4 * MB - 3, "random", {"comp": "mt", "legacy": False, "bs": "-B7", "bx": True, "mode": "-BD"}),
+        # legacy blocks that do not shrink: stored size is compressBound(8 MB) > 8 MB, followed by a short block
+        (8 * MB + 4099, "random", {"comp": "mt", "legacy": True}),
+        (16 * MB + 1, "random", {"comp": "st", "legacy": True}),
     ]
-    nbig = {"quick": 10, "search": 14, "thorough": 120}[tier]
+    nbig = {"quick": 15, "search": 20, "thorough": 120}[tier]
     for i in range(nbig):
         row = {k: rng.choice(v) for k, v in DIMS.items()}
         row["legacy"] = rng.random() < 0.15
